@@ -40,6 +40,8 @@ def instances(tier):
         out.append(dict(id="continued-%s-N2" % fam, family=fam, N=2, mode="pieces", cont=True, budget=b))
         out.append(dict(id="continued-lookup-%s-N2" % fam, family=fam, N=2, mode="lookup", cont=True, budget=b))
     out.append(dict(id="richardson-euler-N2", family="euler", N=2, mode="richardson", budget=b))
+    # deep extrapolation table: the convergence test may leave the table before the finest sub-division has been run
+    out.append(dict(id="richardson-euler-N1-depth6", family="euler", N=1, mode="richardson", depth=6, budget=b))
     # histories with events: non-terminal, terminal (rolled-back step), and continuation after the stop - the real event section of integrate
     # driven by the events oracle of C07-C09
     for fam, evs in ((("euler", "T"), ("euler", "nT"), ("rk4", "T")) if quick else (("euler", "T"), ("euler", "nT"), ("rk4", "T"), ("rk4", "nT"), ("sympl_euler", "T"), ("midpoint", "nT"))):
@@ -115,7 +117,9 @@ def scenario(c, inst):
     span, adt = spans.input_assumptions(c, inst, t0, tf, dt0)
     fam = inst["family"]
     method, shape, kind = spans.FAMILIES[fam]
-    rhs = FreshRhs(c, shape, name="f", mode="uf")
+    # (Richardson instances: fresh symbols per call, so that the float replay follows the witness through the convergence tests of the
+    # extrapolation table; their assertions are about coverage only)
+    rhs = FreshRhs(c, shape, name="f", mode="fresh" if inst.get("mode") == "richardson" else "uf")
     probe = FreshRhs(c, shape, name="f", mode="uf")
     st, built = run(spans.build_system, c, dict(inst, max_redo=1), t0, tf, dt0, True, rhs)
     if st != "ok":
@@ -160,7 +164,7 @@ def scenario(c, inst):
 
 def _richardson(c, inst, a, probe, t0, tf, backward, cap):
     import desolver.integrators as I
-    RI = I.generate_richardson_integrator(I.EulerSolver, richardson_iter=2)
+    RI = I.generate_richardson_integrator(I.EulerSolver, richardson_iter=inst.get("depth", 2))
     a.set_method(RI)
     a.integrator.update_timestep = ctrl_stub(c, a.integrator, fixed=1.0)
     for bi in a.integrator.basis_integrators:
@@ -176,7 +180,10 @@ def _richardson(c, inst, a, probe, t0, tf, backward, cap):
     c.case()
     sol = a.sol
     its = step_order(sol.y_interpolants, backward)
-    # pieces come from the last sub-division (2 sub-steps per step): contiguous, covering every step
+    c.check("c06.richardson.every_recorded_step_has_pieces", len(its) >= n - 1, info=dict(pieces=len(its), rows=n))
+    if len(its) == 0:
+        return
+    # pieces come from the last sub-division that was run: contiguous, covering every step
     ok = [c.eq(its[0].t0, a.t[0])]
     for i in range(len(its) - 1):
         ok.append(c.eq(its[i].t1, its[i + 1].t0))
